@@ -264,6 +264,25 @@ func (w *World) setRoots(in *Instance, set []string, plan []int) {
 	l := in.log
 	inc := in.inc
 	pemBytes := w.rootSetPEM(set)
+	// the caller reuses one buffer for successive reloads when the length allows
+	// (what reading a file into a fixed buffer does): the log must not keep a
+	// reference into it
+	w.smu.Lock()
+	idle := w.rootsTasks == 0
+	w.smu.Unlock()
+	if !idle {
+		// a reload is still running with the shared buffer as its argument: a
+		// caller may only reuse a buffer after the call that got it has returned
+		pemBytes = bytes.Clone(pemBytes)
+	} else if len(in.rootsBuf) == len(pemBytes) {
+		copy(in.rootsBuf, pemBytes)
+		pemBytes = in.rootsBuf
+		w.sim.Probe("roots.buffer-reused")
+	} else {
+		in.rootsBuf = bytes.Clone(pemBytes)
+		pemBytes = in.rootsBuf
+	}
+	want := parseRootSet(pemBytes)
 	before := map[string]bool{}
 	for k, v := range in.rootsMem {
 		before[k] = v
@@ -280,7 +299,7 @@ func (w *World) setRoots(in *Instance, set []string, plan []int) {
 			select {}
 		}
 		if err == nil {
-			in.rootsMem = parseRootSet(pemBytes)
+			in.rootsMem = want
 		}
 		w.note("setroots i%d.%d %v -> err=%v", in.idx, inc, set, err != nil)
 	}()
@@ -397,6 +416,19 @@ func (o *oracle) checkChainOutcome(in *Instance, s *Submission) {
 	}
 	if !want {
 		o.rejectedKeys[it.Key] = it
+	}
+	// every certificate of an accepted chain is a retrievable issuer, also when
+	// the entry itself was answered by deduplication
+	if s.Code == 200 && len(it.Chain) > 1 && !o.tampered {
+		for _, der := range it.Chain[1:] {
+			fp := sha256.Sum256(der)
+			obj, ok := in.store.objs[fmt.Sprintf("issuer/%x", fp)]
+			if !ok || sha256.Sum256(obj.Data) != fp {
+				o.v("C09", "issuer-not-retrievable", "sub %d was accepted, but chain certificate %x is not stored as issuer/%x", s.ID, fp[:4], fp)
+				break
+			}
+		}
+		w.sim.Probe("chain.issuers.checked")
 	}
 	// retry-later answers: a rate-limited or evicted submission is answered 503 with Retry-After (C17)
 	body := string(s.SCT)
